@@ -561,8 +561,18 @@ class Tdf:
         comment = comment if comment is not None else old_entry.comment
 
         # a failed replace must not lose the old block: check everything
-        # add_block could refuse before removing anything
-        BTSString.write(256, comment)
+        # add_block could refuse before removing anything (the table entry
+        # with its comment and dates, then the block itself)
+        TdfEntry(
+            type=newBlock.type,
+            format=newBlock.format.value,
+            offset=old_entry.offset,
+            size=newBlock.nBytes,
+            creation_date=newBlock.creation_date,
+            last_modification_date=newBlock.last_modification_date,
+            last_access_date=datetime.now(),
+            comment=comment,
+        )._write(BytesIO())
         newBlock._write(BytesIO())
         if any(
             entry.type == BlockType.unusedSlot for entry in self.entries[: len(self)]
